@@ -219,7 +219,11 @@ func c16units(c *h.Ctx, r *h.Rand) {
 		c.Eq("unpad", in, out, c.O.Call("jose.unpad", fmt.Sprint(k), h.Hex(b)))
 		c.Case(bucket, in, true)
 	}
-	unpad(16, nil, "pkcs7/unpad-empty(panic modelled)")
+	unpad(16, nil, "pkcs7/unpad-empty(F28 regression)")
+	{
+		out := h.Safe(func() string { return c16res(josecipher.VerifUnpadBuffer(nil, 16)) })
+		c.Hold(strings.HasPrefix(out, "err"), "no_panic", "jose.unpad 16 - (F28)", out, "err")
+	}
 	for last := 0; last < 256; last++ {
 		b := bytes.Repeat([]byte{byte(last)}, 32)
 		unpad(16, b, "pkcs7/unpad-all-last-bytes")
